@@ -78,6 +78,46 @@ pub fn check_event(rep: &mut Report, rng: &mut Rng, e: &SemEvent, other_bytes: &
     };
     let e0: &Event = &owned;
     let e0_bytes = e0.as_bytes().to_vec();
+    // 0a. copies are byte-identical: copy() into an exactly sized and a larger dirty buffer succeeds, into a buffer
+    //     one byte short fails; to_owned() likewise; the tags' own copy as well
+    {
+        for extra in [0usize, 5] {
+            let mut buf = vec![0xB7u8; e0_bytes.len() + extra];
+            match catch(|| e0.copy(&mut buf).map(|n| buf[..n.min(buf.len())].to_vec())) {
+                Ok(Ok(b)) => {
+                    if b != e0_bytes {
+                        rep.finding("copy-differs", &format!("Event::copy into a buffer of len+{extra}: {}", first_diff(&b, &e0_bytes)), replay_of(e, json!(null)));
+                    }
+                }
+                Ok(Err(err)) => rep.finding("copy-refused-with-sufficient-buffer", &format!("Event::copy into a buffer of len+{extra}: {err}"), replay_of(e, json!(null))),
+                Err(p) => rep.finding(&format!("copy-panic@{}", p.location), &p.message, replay_of(e, json!(null))),
+            }
+        }
+        if !e0_bytes.is_empty() {
+            let mut short = vec![0u8; e0_bytes.len() - 1];
+            if let Ok(Ok(_)) = catch(|| e0.copy(&mut short)) {
+                rep.finding("copy-into-short-buffer-succeeded", "Event::copy into len-1 bytes returned Ok", replay_of(e, json!(null)));
+            }
+        }
+        if let Ok(t) = e0.tags() {
+            let tb = t.as_bytes().to_vec();
+            let mut buf = vec![0xB7u8; tb.len()];
+            match catch(|| t.copy(&mut buf).map(|_| buf.clone())) {
+                Ok(Ok(b)) => {
+                    if b != tb {
+                        rep.finding("copy-differs", &format!("Tags::copy: {}", first_diff(&b, &tb)), replay_of(e, json!(null)));
+                    }
+                }
+                Ok(Err(err)) => rep.finding("copy-refused-with-sufficient-buffer", &format!("Tags::copy into an exactly sized buffer: {err}"), replay_of(e, json!(null))),
+                Err(p) => rep.finding(&format!("copy-panic@{}", p.location), &p.message, replay_of(e, json!(null))),
+            }
+        }
+        let o2 = e0.to_owned();
+        if o2.as_bytes() != &e0_bytes[..] {
+            rep.finding("copy-differs", "to_owned()", replay_of(e, json!(null)));
+        }
+        rep.count("copy_checks");
+    }
     // 0. the same event built from parts into output buffers with prior contents: byte-identical too
     for mode in 1..5u64 {
         let n = e0_bytes.len() + (mode as usize % 3);
